@@ -1,6 +1,7 @@
 import os
 from typing import TYPE_CHECKING, Any, Dict, List, Match, Union
 
+from ..util import escape as escape_text
 from ._base import BaseDirective, DirectivePlugin
 
 if TYPE_CHECKING:
@@ -73,4 +74,4 @@ class Include(DirectivePlugin):
 
 
 def render_html_include(renderer: "BaseRenderer", text: str, **attrs: Any) -> str:
-    return '<pre class="directive-include">\n' + text + "</pre>\n"
+    return '<pre class="directive-include">\n' + escape_text(text) + "</pre>\n"
